@@ -96,6 +96,12 @@ def check_spellings(model, rep):
         if isinstance(c, ast.Call) and src(c.func) == f'{item}.split' and c.args and const(c.args[0]) == ':' and (f'isinstance({item}, str)', True) in conds.get(id(c), ()):
             n = c
     ok = n is not None and len(n.args) == 2 and const(n.args[1]) == 1
+    if n is None:
+        # item.partition(':') splits at the first colon as well: (old, separator, new) unpacked into three targets
+        for st_ in ast.walk(loop):
+            if isinstance(st_, ast.Assign) and isinstance(st_.value, ast.Call) and src(st_.value.func) == f'{item}.partition' and len(st_.value.args) == 1 and const(st_.value.args[0]) == ':' \
+                    and (f'isinstance({item}, str)', True) in conds.get(id(st_.value), ()) and len(st_.targets) == 1 and isinstance(st_.targets[0], ast.Tuple) and len(st_.targets[0].elts) == 3:
+                n, ok = st_.value, True
     rep.ob('R13.2', f.key, f.where(n) if n is not None else f.where(loop), ok, "string items are split on the first ':'" if ok else
            f"string items are not split with split(':', 1)" + ('' if n is None else f' (found `{src(n)}`)'), statement='spelling: item string')
 
